@@ -746,6 +746,9 @@ impl FixtureDatabase {
                 // Found the pattern — check if cursor is inside the unclosed call
                 // Count parens from the usefixtures( position to the cursor
                 let mut depth: i32 = 0;
+                // Set once the call's own closing paren is seen on a line above the
+                // cursor: whatever opens after that is not part of the call
+                let mut closed_above = false;
 
                 // Count from the opening paren on this line
                 for ch in line[pos..].chars() {
@@ -760,20 +763,25 @@ impl FixtureDatabase {
                 // Continue counting on subsequent lines up to cursor.
                 // Skip when i == cursor_idx since (i + 1)..=cursor_idx would panic.
                 if i < cursor_idx {
+                    closed_above = depth <= 0;
                     for line in &lines[(i + 1)..=cursor_idx] {
                         for ch in line.chars() {
+                            if closed_above {
+                                break;
+                            }
                             if ch == '(' {
                                 depth += 1;
                             }
                             if ch == ')' {
                                 depth -= 1;
+                                closed_above = depth <= 0;
                             }
                         }
                     }
                 }
 
                 // If depth > 0, we're inside the unclosed usefixtures call
-                if depth > 0 {
+                if depth > 0 && !closed_above {
                     return Some(CompletionContext::UsefixturesDecorator);
                 }
 
